@@ -17,7 +17,7 @@ MANIFEST = {
         "design_ref": "DESIGN.md 3/C19",
     }
 }
-PROPS = ["Nstd.Path.Props", "Nstd.Path.FsProps", "Nstd.Path.Props2", "Nstd.Path.FsProps2", "Nstd.Path.PropsStr", "Nstd.Path.PropsScan", "Nstd.Path.PropsObj", "Nstd.Path.PropsUnlinkTie"]
+PROPS = ["Nstd.Path.Props", "Nstd.Path.FsProps", "Nstd.Path.Props2", "Nstd.Path.FsProps2", "Nstd.Path.PropsStr", "Nstd.Path.PropsScan", "Nstd.Path.PropsScanCur", "Nstd.Path.PropsObj", "Nstd.Path.PropsUnlinkTie"]
 LEAN_TARGETS = PROPS + ["drv_path"]
 DRIVER = "drv_path"
 SOURCES = ["path.cpp", C.REPO / "src/File.cpp", C.REPO / "src/Directory.cpp", C.REPO / "src/String.cpp",
@@ -50,6 +50,17 @@ def gen(ctx):
     ok, msg = translate()
     ok2, msg2 = translate_unlink()
     ok, msg = ok and ok2, msg + " || " + msg2
+    levels = dict(gen_path.LAST_LEVELS)
+    levels["Directory::unlink entry decision"] = gen_path_unlink.LAST_LEVEL[0]
+    degraded = {k: v for k, v in levels.items() if v != "proved"}
+    if ctx is not None:
+        ctx.cov["tie_levels"] = levels
+        ctx.cov["tie_degraded"] = sorted(degraded)
+        if degraded:
+            ctx.log("TIE DEGRADED (the current text of these bodies is not the text the equality proofs are about; the theorems keep "
+                    "speaking about the proved text, the current text is tied by bounded checks / the correspondence run): "
+                    + "; ".join(f"{k}: {v}" for k, v in degraded.items()))
+            ctx.assumptions.append("TIE DEGRADED for " + ", ".join(sorted(degraded)) + ": see coverage.tie_levels")
     if ctx is not None:
         ctx.cov.setdefault("translated", msg)
         ctx.log("translator: " + msg)
